@@ -1,9 +1,14 @@
 #!/bin/bash
 # usage: seed_suite.sh [ids...]  -- for every kept seeded change (or the given ones): git -C /repo apply, run the quick tier of the
-# property's check, git -C /repo checkout -- .  ; prints caught / MISSED per seed.  Evidence files are not touched (VERIF_EVIDENCE_DIR).
+# property's check, git -C $R checkout -- .  ; prints caught / MISSED per seed.  Evidence files are not touched (VERIF_EVIDENCE_DIR).
 # C08-1 is skipped: since the repair of F59 it no longer changes the reader's verdict (see its meta.json).
+# SUITE_REPO (default /repo) names the tree the changes are applied to: a second and third lane can run side by side on scratch
+# worktrees of the same commit (SUITE_REPO=/tmp/sc2 SUITE_TAG=b seed_suite.sh ids...), each with its own work directory.
 cd /verif || exit 2
-out=/verif/.work/logs/seed_suite.txt
+R=${SUITE_REPO:-/repo}
+TAG=${SUITE_TAG:-}
+out=/verif/.work/logs/seed_suite$TAG.txt
+if [ "$R" != "/repo" ]; then export VERIF_REPO=$R VERIF_WORK=/tmp/suite_work$TAG; fi
 mkdir -p /verif/.work/logs /tmp/seed_suite_ev
 : > $out
 ids="$@"
@@ -11,13 +16,13 @@ ids="$@"
 for id in $ids; do
   [ "$id" = "C08-1" ] && { echo "$id skipped (masked by the repair of F59)" | tee -a $out; continue; }
   prop=${id%%-*}
-  if ! git -C /repo apply --check /verif/seeded/$id/patch.diff 2>/dev/null; then echo "$id PATCH-DOES-NOT-APPLY" | tee -a $out; continue; fi
-  git -C /repo apply /verif/seeded/$id/patch.diff
+  if ! git -C $R apply --check /verif/seeded/$id/patch.diff 2>/dev/null; then echo "$id PATCH-DOES-NOT-APPLY" | tee -a $out; continue; fi
+  git -C $R apply /verif/seeded/$id/patch.diff
   s=$(date +%s)
-  VERIF_EVIDENCE_DIR=/tmp/seed_suite_ev ./check $prop --tier quick > /verif/.work/logs/suite_$id.log 2>&1; rc=$?
-  git -C /repo checkout -- .
+  VERIF_PYRUNTIME=$R/src/exp2python/python VERIF_EVIDENCE_DIR=/tmp/seed_suite_ev$TAG ./check $prop --tier quick > /verif/.work/logs/suite_$id.log 2>&1; rc=$?
+  git -C $R checkout -- .
   if grep -q "^VIOLATION property=$prop" /verif/.work/logs/suite_$id.log; then echo "$id caught (rc=$rc, $(( $(date +%s) - s ))s)" | tee -a $out; else echo "$id MISSED (rc=$rc, $(( $(date +%s) - s ))s)" | tee -a $out; fi
 done
 # replays written while a seeded change was applied do not belong to the unchanged tree
 git -C /verif status --short replays | grep '^??' | awk '{print $2}' | while read d; do rm -rf "/verif/$d"; done
-git -C /repo status --short | grep -v '^??' && echo "WARNING: /repo working tree not clean" | tee -a $out
+git -C $R status --short | grep -v '^??' && echo "WARNING: /repo working tree not clean" | tee -a $out
